@@ -262,4 +262,25 @@ pub fn gen(rng: &mut Rng, tier: Tier, out: &mut Vec<String>) {
     emit(out, "f", "degree0", 0, &[Cmplx::new(3.0, 0.0)], &[]);
     emit(out, "c", "degree0", 1, &[Cmplx::new(3.0, 1.0)], &[]);
     emit(out, "f", "empty", 0, &[], &[]);
+
+    // (h) ONE ROOT AT ZERO (constant coefficient exactly 0) next to well-separated non-zero real roots of general magnitude
+    // (10^[-2,1], either sign) with a general leading coefficient (10^[-3,3]): the values must be in one-to-one
+    // correspondence with {0, r_1, ...}. (A relative convergence test can never be met at the root 0: the iteration has
+    // to end there by some other means, and must not leave for another root.) Degree 2..6, both refinement settings.
+    for i in 0..(if tier == Tier::Quick { 300 } else { 6000 }) {
+        let deg = match i % 6 { 0 => 2, 1 => 4, 2 => 5, 3 => 6, _ => 3 };
+        let mut rs: Vec<f64> = Vec::new();
+        let mut guard = 0;
+        while rs.len() + 1 < deg && guard < 1000 { guard += 1;
+            let r = (rng.unit() * 2.0 - 1.0) * 10f64.powf(-2.0 + 3.0 * rng.unit());
+            if r.abs() < 1e-3 || rs.iter().any(|q: &f64| (q - r).abs() < 0.2 * q.abs().max(r.abs())) { continue; }
+            rs.push(r); }
+        if rs.len() + 1 < deg { continue; }
+        let a = (rng.unit() * 2.0 - 1.0) * 10f64.powf(-3.0 + 6.0 * rng.unit());
+        if a == 0.0 { continue; }
+        let mut c = real_poly_from(a, &rs, &[]);
+        c.insert(0, z0);                                   // multiply by x
+        let mut known: Vec<Cmplx> = vec![z0]; known.extend(rs.iter().map(|r| Cmplx::new(*r, 0.0)));
+        emit(out, "f", "zero-root-separated", i % 2, &c, &known);
+    }
 }
